@@ -116,6 +116,17 @@ def gen(rng, idx, tier):
         for i in range(rng.randrange(2, 4)):
             ops.append({"at": t1 + i * rng.choice([0.0, 0.001, 0.01]), "op": "send", "msg": _with_source(session.sendable(rng, multi=(i == 0 or rng.random() < 0.5)), 10 + i),
                         "id": 10 + i, "kind": "ok"})
+    if fault and rng.random() < 0.35:
+        # callers that give up: the send() coroutine is cancelled in the middle of whatever it is doing
+        for o_ in ops:
+            if o_["op"] == "send" and rng.random() < 0.6:
+                o_["timeout"] = rng.choice([0.01, 0.1, 0.3, 1.0])
+        if rng.random() < 0.5:
+            # ... while the gateway refuses the first reconnection attempts
+            script[1:1] = [{"a": "refuse", "lat": 0.001} for _ in range(rng.choice([1, 2, 4]))]
+            for o_ in ops:
+                if "on_accept" in o_:
+                    o_["on_accept"] = len(script) - 1
     status = session.cb_faults(rng, 12, p_raise=rng.choice([0, 0.3]), p_delay=rng.choice([0, 0.3]), delays=(0.001, 0.1, 1.0))
     return {"client": kind, "config": {}, "script": script, "ops": ops, "cb": {"status": status},
             "knobs": {"min_end": 5.0, "tail": (c13.RECOVER_S + 10.0) if fault else (QUIET_S + 5.0), "max_end": 2000.0, "hb": 1.0},
@@ -279,7 +290,10 @@ def execute(plan):
             last_on_faulted = c["fault"] is not None and bi == len(blocks) - 1
             if got_m != exp_m:
                 started_before = mid in recs and recs[mid]["start"] < c["at"]
-                if (last_on_faulted or c["fault"] is not None) and got_m == exp_m[:len(got_m)]:
+                gave_up = mid in recs and (recs[mid]["exc"] or "").startswith(("TimeoutError", "CancelledError"))
+                if gave_up and got_m == exp_m[:len(got_m)]:
+                    st["partial_block_of_cancelled_send"] = st.get("partial_block_of_cancelled_send", 0) + 1
+                elif (last_on_faulted or c["fault"] is not None) and got_m == exp_m[:len(got_m)]:
                     st["partial_block_on_faulted_connection"] = st.get("partial_block_on_faulted_connection", 0) + 1
                 elif started_before and got_m and got_m == exp_m[len(exp_m) - len(got_m):]:
                     # the link was replaced while this message was being written: its remaining packets appear on the
@@ -346,7 +360,8 @@ def execute(plan):
         r = c13.evaluate(plan, o, prefix="C19.W3")
         v.extend(r["violations"])
         if o.conns and o.conns[-1]["fault"] is None and not v:
-            late_ok = [i for i in ok_ids if i >= 30 and i in recs and i not in complete]
+            late_ok = [i for i in ok_ids if i >= 30 and i in recs and i not in complete
+                       and not (recs[i]["exc"] or "").startswith(("TimeoutError", "CancelledError"))]
             if late_ok:
                 v.append(viol("C19.W3.S4" + sfx, recs[late_ok[0]]["start_ev"], "send #%d issued on the recovered connection "
                               "wrote nothing" % late_ok[0]))
